@@ -86,6 +86,9 @@ func vkConfigs() []*vkCfg {
 		{Name: "32+clients", Prefixes: []string{"2001:db8::/32"}, ClientNets: []string{"198.51.100.0/24", "2001:db8:c::/48"}, ExclA: []string{}, ExclAAAA: mapped},
 		{Name: "wkp+zones", Prefixes: []string{vkWKP}, ExclZones: []string{"excluded.example", "Other.Example."}, ExclA: []string{}, ExclAAAA: []string{}},
 		{Name: "48", Prefixes: []string{"2001:db8:4800::/48"}, ExclA: []string{"10.0.0.0/8"}, ExclAAAA: mapped, ClientNets: []string{"203.0.113.0/24"}, ExclZones: []string{"excluded.example."}},
+		// one prefix inside another (every AAAA synthesised from either must still reverse)
+		{Name: "nested48+96", Prefixes: []string{"2001:db8:64::/48", "2001:db8:64::/96"}, ExclA: []string{}, ExclAAAA: mapped},
+		{Name: "nested96+48", Prefixes: []string{"2001:db8:64::/96", "2001:db8:64::/48"}, ExclA: []string{}, ExclAAAA: mapped},
 		{Name: "fallback-none", Prefixes: []string{vkWKP}, UseRaw: true, Raw: nil, ExclA: []string{"10.0.0.0/8"}, ExclAAAA: mapped},
 		{Name: "fallback-illegal", Prefixes: []string{vkWKP}, UseRaw: true, Raw: []string{"2001:db8:100::/49", "not-a-prefix", "2001:db8::/72"}, ExclA: []string{"10.0.0.0/8", "192.168.0.0/16"}, ExclAAAA: mapped},
 	}
@@ -773,6 +776,12 @@ func vkPTRCase(cfg *vkCfg, pi int, v4 [4]byte, upper bool) string {
 			}
 			return "ok:translated"
 		}
+	}
+	// An address synthesis WOULD emit for this configuration (the pair is not under the well-known
+	// prefix's excluded IPv4 ranges) has to map back: falling through to ordinary recursion for the
+	// ip6.arpa name is not "maps back to the same IPv4 address".
+	if !(pn.String() == vkWKP && cfg.aExcluded(net.IP(v4[:]))) {
+		return fmt.Sprintf("PTR %s (= %s embedded in %s, an AAAA this configuration synthesises) was not mapped back to %s: the query fell through to ordinary resolution", qname, net.IP(v4[:]), pn, want)
 	}
 	return "ok:fallthrough"
 }
